@@ -526,3 +526,50 @@ def c20m(ctx):
         ok = bool(calls) and all(keyword(x, 'with_metadata', 1) is not None and same(keyword(x, 'with_metadata', 1), 'with_metadata') for x in calls)
         ctx.check(ok, 'CompactCacheBase.%s:hands-on-with-metadata' % m, 'the request for metadata reaches the bundle (%d calls)' % len(calls), fn,
                   fail='CompactCacheBase.%s does not hand with_metadata on: the bundles never record the size' % m)
+
+
+@rule('C20.n', floor=3)
+def c20n(ctx):
+    """the validators of a response belong to the image of that response: a stale tile is loaded with its metadata (time stamp and size
+    of the old file) before it is created again, and tile_buffer keeps a time stamp that is already set.  Where a creator attaches
+    the new image to such a tile, the old metadata is dropped (the store records the new ones); where the manager copies a created
+    tile into the collection it returns, time stamp and size travel with the image (the CacheInfo of the created tile, not only its
+    truth value).  Otherwise the request that refreshes a tile answers with the new image under the old Last-Modified, and
+    If-Modified-Since of the old copy gets 304"""
+    T = 'mapproxy/cache/tile.py'
+    fn = ctx.fn(T + ':TileCreator._create_single_tile')
+    g = fn.cfg
+    srcs = g.find_stmts(lambda s: isinstance(s, ast.Assign) and unparse(s.targets[0]) == 'tile.source' and not is_call(s.value, 'load'))
+    stores = [n for n, x in g.find(lambda x: is_call(x, 'self.cache.store_tile', 'self.cache.store_tiles'))]
+    ok = bool(srcs) and bool(stores)
+    for what in ('timestamp', 'size'):
+        resets = g.find_stmts(lambda s, what=what: isinstance(s, ast.Assign) and unparse(s.targets[0]) == 'tile.' + what and const_value(s.value, 1) is None)
+        # between the attachment of the new image and the store there is no way around the reset
+        good = bool(resets) and all(not g.reaches_avoiding(s_, st, avoid=set(resets)) for s_ in srcs for st in stores)
+        ctx.check(ok and good, 'TileCreator._create_single_tile:stale-%s-dropped' % what,
+                  'tile.%s of the loaded (stale) tile is reset where the new image is attached, before the store' % what, fn,
+                  fail='the new image is stored on a tile object that still carries the %s of the stale tile: the refreshing response has the '
+                       'validators of the old tile' % what)
+    lt = ctx.fn(T + ':TileManager._load_tile_coords')
+    ldefs = Defs(lt.node)
+    n = 0
+    for lp in [l for l in lt.walk() if isinstance(l, ast.For) and isinstance(l.target, ast.Name)]:
+        if not any(contains(e, lambda x: is_call(x, 'create_tiles')) for e in expand(lp.iter, ldefs)):
+            continue
+        tv = lp.target.id
+        for st in [x for x in ast.walk(lp) if isinstance(x, ast.Assign) and isinstance(x.targets[0], ast.Attribute) and x.targets[0].attr == 'source'
+                   and unparse(x.value) == tv + '.source']:
+            n += 1
+            dst = unparse(st.targets[0].value)
+            whole = [x for x in ast.walk(lp) if isinstance(x, ast.Assign) and unparse(x.targets[0]) == dst + '.cacheable' and unparse(x.value) == tv + '.cacheable']
+            parts = {w for w in ('timestamp', 'size') if any(isinstance(x, ast.Assign) and unparse(x.targets[0]) == '%s.%s' % (dst, w) and
+                                                             unparse(x.value) == '%s.%s' % (tv, w) for x in ast.walk(lp))}
+            ctx.check(bool(whole) or parts == {'timestamp', 'size'}, 'TileManager._load_tile_coords:metadata-copied-with-source',
+                      'time stamp and size of a created tile are copied together with its image (as CacheInfo or field by field)', lt, st,
+                      fail='only the image (and the truth value of the cacheable mark) of a created tile is copied: the returned tile keeps the '
+                           'time stamp and size it was loaded with')
+    if not n:
+        ctx.bad('TileManager._load_tile_coords:metadata-copied-with-source', 'the copy of created tiles into the returned collection was not found', lt)
+    cs = ctx.fn(T + ':Tile._cacheable_set')
+    ok = all(any(isinstance(s, ast.Assign) and unparse(s.targets[0]) == 'self.' + w and unparse(s.value) == 'cacheable.' + w for s in cs.walk()) for w in ('timestamp', 'size'))
+    ctx.check(ok, 'Tile.cacheable:carries-metadata', 'assigning a CacheInfo to Tile.cacheable sets time stamp and size as well', cs)
